@@ -78,7 +78,7 @@ def run_task(task):
             bss = [bytes([a, b, c_, d]).hex() for a in (0, 1, 0x80, 0xFD, 0xFE, 0xFF) for b in (0, 2, 0xFE, 0xFF)
                    for c_ in (1, 0xFE) for d in (0, 3, 0xFE)] + ["", "05", "fe01", "0102030405"]
             jobs = [{"fn": "encode_number", "arg": n} for n in ns] + [{"fn": "decode_number", "arg": h} for h in bss]
-            for flag in ("-O", "-OO"):
+            for flag in ("-O", "-OO", "-Werror"):
                 got = optrun.run(jobs, flag)
                 for job, g in zip(jobs, got):
                     exp = refcodec.ref_encode(job["arg"]).hex() if job["fn"] == "encode_number" \
